@@ -39,6 +39,10 @@ Section Loop.
 End Loop.
 Arguments read_n {A}.
 
+(* the position in the file at which a record starts (item.offset = buff.tell() in every item class): L is the length of the file *)
+Definition with_pos {A} (L : nat) (rd : bytes -> result (A * bytes)) (bs : bytes) : result ((Z * A) * bytes) :=
+  do '(x, r) <- rd bs; Ok ((Z.of_nat L - Z.of_nat (length bs), x), r).
+
 Definition rd_fixed (k : nat) (bs : bytes) : result (bytes * bytes) := take_n k bs.
 (* a 32-bit count, then count records of k bytes; the number of records read *)
 Definition rd_sized (k : nat) (pad_odd : bool) (fuel : nat) (bs : bytes) : result (Z * bytes) :=
@@ -73,9 +77,10 @@ Definition rd_handler (fuel : nat) (bs : bytes) : result (Z * bytes) :=
   do '(size, r) <- read_s bs;
   do '(ps, r1) <- read_n rd_pair fuel (Z.abs size) r [];
   if size <=? 0 then do '(_, r2) <- read_u r1; Ok (Z.of_nat (length ps), r2) else Ok (Z.of_nat (length ps), r1).
-Definition rd_code (L : nat) (fuel : nat) (bs : bytes) : result ((Z * Z) * bytes) :=
+Definition rd_code (L : nat) (fuel : nat) (bs : bytes) : result ((Z * (Z * Z)) * bytes) :=
   let pos := Z.of_nat L - Z.of_nat (length bs) in
   let bs0 := skipn (Z.to_nat ((4 - pos mod 4) mod 4)) bs in
+  let at0 := Z.of_nat L - Z.of_nat (length bs0) in
   do '(h, r) <- take_n 16 bs0;
   let tries := le (firstn 2 (skipn 6 h)) in
   let insns := le (skipn 12 h) in
@@ -85,8 +90,8 @@ Definition rd_code (L : nat) (fuel : nat) (bs : bytes) : result ((Z * Z) * bytes
     do '(ts, r3) <- read_n (rd_fixed 8) fuel tries r2 [];
     do '(hs, r4) <- read_u r3;
     do '(hl, r5) <- read_n (rd_handler fuel) fuel hs r4 [];
-    Ok ((Z.of_nat (length ts), Z.of_nat (length hl)), r5)
-  else Ok ((0, 0), r2).
+    Ok ((at0, (Z.of_nat (length ts), Z.of_nat (length hl))), r5)
+  else Ok ((at0, (0, 0)), r2).
 
 (* encoded_array_item (EncodedArray: a count and that many encoded values) and annotation_item (a visibility byte, then an
    EncodedAnnotation - the reader behind a value of type VALUE_ANNOTATION): the model of C04, nested to any depth *)
@@ -121,22 +126,23 @@ Definition kind_of (ty : Z) : option kind :=
 (* where MapItem.parse seeks to: the string ids at their offset, the others at offset + offset % 4 *)
 Definition start_of (ty off : Z) : Z := if (ty =? 1) || (ty =? 8194) || (ty =? 8196) || (ty =? 8197) || (ty =? 8192) then off else off + off mod 4.
 
-(* MapItem.parse: the number of objects the section gave (for a list of sized records: the number of lists) *)
-Definition section (fuel : nat) (buf : bytes) (ty count off : Z) : result Z :=
+(* MapItem.parse: where each object of the section starts (item.offset), in order; for a list of sized records: each list *)
+Definition section (fuel : nat) (buf : bytes) (ty count off : Z) : result (list Z) :=
   let bs := seek buf (start_of ty off) in
+  let L := length buf in
   match kind_of ty with
   | None => Err ValueError
   | Some KOutside => Err OtherError
-  | Some KSelf => Ok 0
-  | Some KNothing => Ok 0
-  | Some KStrData => do '(xs, _) <- read_n rd_strdata fuel count bs []; Ok (Z.of_nat (length xs))
-  | Some KCode => do '(xs, _) <- read_n (rd_code (length buf) fuel) fuel count bs []; Ok (Z.of_nat (length xs))
-  | Some KEncArray => do '(xs, _) <- read_n (rd_encarray fuel) fuel count bs []; Ok (Z.of_nat (length xs))
-  | Some KAnnotation => do '(xs, _) <- read_n (rd_annotation fuel) fuel count bs []; Ok (Z.of_nat (length xs))
-  | Some KClassData => do '(xs, _) <- read_n rd_classdata fuel count bs []; Ok (Z.of_nat (length xs))
-  | Some (KFixed k) => do '(xs, _) <- read_n (rd_fixed k) fuel count bs []; Ok (Z.of_nat (length xs))
-  | Some (KSized k p) => do '(xs, _) <- read_n (rd_sized k p fuel) fuel count bs []; Ok (Z.of_nat (length xs))
-  | Some KAnnDir => do '(xs, _) <- read_n (rd_anndir fuel) fuel count bs []; Ok (Z.of_nat (length xs))
+  | Some KSelf => Ok []
+  | Some KNothing => Ok []
+  | Some KStrData => do '(xs, _) <- read_n (with_pos L rd_strdata) fuel count bs []; Ok (map fst xs)
+  | Some KCode => do '(xs, _) <- read_n (rd_code L fuel) fuel count bs []; Ok (map fst xs)
+  | Some KEncArray => do '(xs, _) <- read_n (with_pos L (rd_encarray fuel)) fuel count bs []; Ok (map fst xs)
+  | Some KAnnotation => do '(xs, _) <- read_n (with_pos L (rd_annotation fuel)) fuel count bs []; Ok (map fst xs)
+  | Some KClassData => do '(xs, _) <- read_n (with_pos L rd_classdata) fuel count bs []; Ok (map fst xs)
+  | Some (KFixed k) => do '(xs, _) <- read_n (with_pos L (rd_fixed k)) fuel count bs []; Ok (map fst xs)
+  | Some (KSized k p) => do '(xs, _) <- read_n (with_pos L (rd_sized k p fuel)) fuel count bs []; Ok (map fst xs)
+  | Some KAnnDir => do '(xs, _) <- read_n (with_pos L (rd_anndir fuel)) fuel count bs []; Ok (map fst xs)
   end.
 
 (* MapItem.__init__ *)
@@ -150,7 +156,7 @@ Definition rd_mitem (bs : bytes) : result (mitem * bytes) :=
               Ok ({| m_type := ty; m_count := le (firstn 4 (skipn 2 rest)); m_off := le (skipn 6 rest) |}, r1)
   end.
 
-Fixpoint sections (fuel : nat) (buf : bytes) (items : list mitem) : result (list Z) :=
+Fixpoint sections (fuel : nat) (buf : bytes) (items : list mitem) : result (list (list Z)) :=
   match items with
   | [] => Ok []
   | it :: r => do n <- section fuel buf (m_type it) (m_count it) (m_off it);
@@ -161,10 +167,10 @@ Fixpoint sections (fuel : nat) (buf : bytes) (items : list mitem) : result (list
    determine_load_order from the dependency table that is regenerated from dex_types.py on every run); stable *)
 Definition load_order : list Z := match determine_load_order dep_table with Ok l => l | Err _ => [] end.
 Definition load_rank (it : mitem) : Z := match index_of (m_type it) load_order with Some i => i | None => -1 end.
-(* MapList.__init__(cm, off, buff): the items in file order with the number of objects of each section.  The sections are parsed in
+(* MapList.__init__(cm, off, buff): the items in file order, each with the positions at which the objects of its section start.  The sections are parsed in
    load order, so that is the order in which an error shows (a short read raises struct.error, string data without its NUL
    ValueError); the numbers do not depend on the order - every section seeks to its own offset. *)
-Definition map_list (fuel : nat) (buf : bytes) (off : Z) : result (list (mitem * Z)) :=
+Definition map_list (fuel : nat) (buf : bytes) (off : Z) : result (list (mitem * list Z)) :=
   do '(n, r) <- u32 (seek buf off);
   do '(items, _) <- read_n rd_mitem fuel n r [];
   do _ <- sections fuel buf (isort load_rank items);
@@ -173,5 +179,5 @@ Definition map_list (fuel : nat) (buf : bytes) (off : Z) : result (list (mitem *
 
 Definition obs_map (x : bytes * Z) : val :=
   let '(buf, off) := x in
-  vres (fun l => VList (map (fun p => VList [VZ (m_type (fst p)); VZ (m_count (fst p)); VZ (m_off (fst p)); VZ (snd p)]) l))
+  vres (fun l => VList (map (fun p => VList [VZ (m_type (fst p)); VZ (m_count (fst p)); VZ (m_off (fst p)); vlistZ (snd p)]) l))
        (map_list (S (length buf)) buf off).
